@@ -588,10 +588,21 @@ def f6(ctx):
         fn = mod.func(name)
         cfg, guards = _guards(mod, fn)
         rets = [s for s in walk(fn) if isinstance(s, ast.Return)]
-        ctx.require(len(rets) == 1, '%s has %d return statements' % (name, len(rets)))
-        rn = cfg.node_of(rets[0])
+        ctx.require(rets, '%s has no return statement' % name)
         roles = _transpose_roles(fn)
         ctx.require(roles is not None, '%s: outer / inner treespec not recognised' % name)
+        # whatever is returned is rebuilt through the inner treespec: the result has the inner
+        # structure at the top on every path (no short cut that hands back something else)
+        odd = [r for r in rets if r.value is None or
+               pmatch(r.value, '?inner.unflatten(??x)', {'inner': roles['inner']}) is None]
+        ctx.check('%s/result-through-inner-treespec' % name, not odd,
+                  '%s: every result is inner_treespec.unflatten(...)' % name,
+                  '%s returns `%s`: on that path the result is not rebuilt through the inner treespec, '
+                  'so it is not shaped inner-of-outer' % (name, src(odd[0].value)[:70] if odd and odd[0].value is not None else 'None'),
+                  mod.loc(odd[0]) if odd else mod.loc(fn))
+        # the rejections are judged against the last return (the regrouping); an extra return is
+        # reported above
+        rn = cfg.node_of(rets[-1])
         res = _f6_resolver(fn)
         raises = {}
         for n_ in cfg.nodes:
